@@ -4,6 +4,8 @@ import (
 	"fmt"
 	"math"
 	"strings"
+	"unicode/utf16"
+	"unicode/utf8"
 
 	"github.com/robertkrimen/otto/token"
 )
@@ -161,8 +163,7 @@ func calculateLessThan(left Value, right Value, leftFirst bool) lessThanResult {
 		}
 		result = x < y
 	} else {
-		x, y := x.string(), y.string()
-		result = x < y
+		result = stringLessThan(x.string(), y.string())
 	}
 
 	if result {
@@ -170,6 +171,26 @@ func calculateLessThan(left Value, right Value, leftFirst bool) lessThanResult {
 	}
 
 	return lessThanFalse
+}
+
+// stringLessThan is step 4 of 11.8.5: strings are ordered by their UTF-16 code units.
+// Comparing the UTF-8 bytes orders by code point, which differs when a character
+// outside the BMP (surrogate units 0xD800-0xDFFF) meets one in U+E000-U+FFFF.
+func stringLessThan(x, y string) bool {
+	for len(x) > 0 && len(y) > 0 {
+		rx, sizeX := utf8.DecodeRuneInString(x)
+		ry, sizeY := utf8.DecodeRuneInString(y)
+		if rx != ry {
+			ux, uy := utf16.Encode([]rune{rx}), utf16.Encode([]rune{ry})
+			if ux[0] != uy[0] {
+				return ux[0] < uy[0]
+			}
+			// Same high surrogate, the low surrogates differ.
+			return ux[1] < uy[1]
+		}
+		x, y = x[sizeX:], y[sizeY:]
+	}
+	return len(x) < len(y)
 }
 
 // FIXME Probably a map is not the most efficient way to do this.
